@@ -216,6 +216,9 @@ def check(case):
                 if k5:
                     r.counters["k5-pattern-parse-failures"] += 1
                     r.fail("pydantic-parse[optional-container-of-none]", f"sample {i}: {e}\n{src}")
+                elif not isinstance(e, ValueError) and findings.pydantic_parser_overflow(case):
+                    r.counters["k11-parser-overflow-failures"] += 1
+                    r.fail("pydantic-parse[parser-overflow]", f"sample {i}: {type(e).__name__}: {e}\n{src}")
                 elif k8:
                     r.counters["k8-stricter-datetime-parse-failures"] += 1
                     r.fail("pydantic-parse[stricter-datetime-parser]", f"sample {i}: {e}\n{src}")
